@@ -28,11 +28,313 @@ theorem addCall_eff {s s' : St} {t q : Nat} (hs : step? s (.addCall t q) = some 
 
 theorem detect_eff {s s' : St} {t p : Nat} (hs : step? s (.detect t p) = some s') :
     ∃ tp : Tp, s.tps[p]? = some tp ∧ tp.st = .added ∧
-      s'.tps = s.tps.set p { tp with st := .inCb, cbs := tp.cbs + 1, cbAt := s.clock, by_ := t } := by
+      s'.tps = s.tps.set p { tp with st := .inCb, cbs := tp.cbs + 1, cbAt := s.clock, by_ := t } ∧ s'.clock = s.clock + 1 := by
   simp only [step?] at hs
   split at hs
   · split at hs
-    · rename_i tp htp hg; cases hs; exact ⟨tp, htp, hg.2.2.1, rfl⟩
+    · rename_i tp htp hg; cases hs; exact ⟨tp, htp, hg.2.2.1, rfl, rfl⟩
+    · cases hs
+  · cases hs
+
+theorem startupReady_eff {s s' : St} {t n : Nat} (hs : step? s (.startupReady t n) = some s') :
+    ∃ (q : Nat) (ts : Tp), s.subs[t]? = some (.startup q) ∧ s.tps[q]? = some ts ∧ ts.st = .added ∧
+      s'.tps = s.tps.set q { ts with ready := true, pend := ts.pend + n } ∧ s'.subs = s.subs := by
+  simp only [step?] at hs
+  split at hs
+  · split at hs
+    · split at hs
+      · rename_i q hsu _ ts hts hg; cases hs; exact ⟨q, ts, hsu, hts, hg.1, rfl, rfl⟩
+      · cases hs
+    · cases hs
+  · cases hs
+
+theorem actionDone_eff {s s' : St} {t q : Nat} (hs : step? s (.actionDone t q) = some s') :
+    ∃ ts : Tp, s.tps[q]? = some ts ∧ ts.st = .added ∧ 0 < ts.pend ∧ s'.clock = s.clock + 1 ∧
+      ((ts.ready = true ∧ ts.pend = 1 ∧ ts.ended = ts.total ∧ ts.started = ts.total ∧
+          s'.tps = s.tps.set q { ts with pend := 0, st := .inCbN, cbs := ts.cbs + 1, cbAt := s.clock, by_ := t }) ∨
+       (¬ (ts.ready = true ∧ ts.pend = 1 ∧ ts.ended = ts.total ∧ ts.started = ts.total) ∧
+          s'.tps = s.tps.set q { ts with pend := ts.pend - 1 })) := by
+  simp only [step?] at hs
+  split at hs
+  · split at hs
+    · rename_i _ _ _ ts _ _ hts hg
+      split at hs
+      · rename_i hf; cases hs; exact ⟨ts, hts, hg.1, hg.2, rfl, Or.inl ⟨hf.1, hf.2.1, hf.2.2.1, hf.2.2.2, rfl⟩⟩
+      · rename_i hf; cases hs; exact ⟨ts, hts, hg.1, hg.2, rfl, Or.inr ⟨hf, rfl⟩⟩
+    · cases hs
+  · cases hs
+
+/-- a compound other than the one that moves keeps its invariants when descriptors outside it are rewritten -/
+theorem other_frame {l l' : List Tp} {c : Comp} (hci : CI l c) (hcs : CS l c)
+    (hsame : ∀ q : Nat, (q ∈ c.members ∨ q = c.self) → l'[q]? = l[q]?) : CI l' c ∧ CS l' c := by
+  constructor
+  · refine ⟨hci.le, ci_mem_frame hci ?_, hci.fin, ci_stamps_frame hci ?_⟩
+    · intro m hm y hy
+      exact ⟨y, by rw [hsame m (Or.inl hm)]; exact hy, Or.inl rfl, rfl⟩
+    · intro m hm tp' htp'
+      rw [hsame m (Or.inl hm)] at htp'
+      exact ⟨tp', htp', rfl, rfl⟩
+  · apply cs_frame hcs
+    · intro ts hts
+      obtain ⟨ts0, hts0, h0, he, hss, _⟩ := hcs.ex
+      rw [hts] at hts0; cases hts0
+      exact ⟨ts, by rw [hsame c.self (Or.inr rfl)]; exact hts, selfRel_refl h0 he hss⟩
+    · intro m hm tp' htp'
+      rw [hsame m (Or.inl hm)] at htp'
+      exact ⟨tp', htp', rfl⟩
+
+theorem self_ne_of_ne {comps : List Comp} (hn : (allSelfs comps).Nodup) {i j : Nat} {c c' : Comp}
+    (hc : comps[i]? = some c) (hc' : comps[j]? = some c') (hij : i ≠ j) : c.self ≠ c'.self := by
+  intro e
+  have h1 : (allSelfs comps)[i]? = some c.self := by simp [allSelfs, List.getElem?_map, hc]
+  have h2 : (allSelfs comps)[j]? = some c.self := by simp [allSelfs, List.getElem?_map, hc', e]
+  exact hij (nodup_get_inj hn h1 h2)
+
+theorem allSelfs_set {comps : List Comp} {i : Nat} {c c' : Comp} (hc : comps[i]? = some c) (hm : c'.self = c.self) :
+    allSelfs (comps.set i c') = allSelfs comps := by
+  induction comps generalizing i with
+  | nil => simp at hc
+  | cons a t ih =>
+    cases i with
+    | zero => simp at hc; subst hc; simp [allSelfs, hm]
+    | succ i =>
+      simp at hc
+      have := ih hc
+      simp only [allSelfs, List.set_cons_succ, List.map_cons] at this ⊢
+      rw [this]
+
+theorem mem_set_comp {comps : List Comp} {i : Nat} {c0 c' x : Comp} (hc : comps[i]? = some c0) (hx : x ∈ comps.set i c') :
+    x = c' ∨ x ∈ comps := by
+  rcases List.mem_or_eq_of_mem_set hx with h | h
+  · exact Or.inr h
+  · exact Or.inl h
+
+theorem gi_memberCb {cs cs' : CSt} {t c0 m : Nat} (h : GI cs) (hs : cstep? cs (.memberCb t c0 m) = some cs') : GI cs' := by
+  simp only [cstep?] at hs
+  split at hs
+  · rename_i comp hcomp
+    split at hs
+    · rename_i hmem
+      have hmmem : m ∈ comp.members := by simpa using hmem
+      split at hs
+      · rename_i s1 hs1
+        split at hs
+        · rename_i s2 hs2
+          obtain ⟨tp, htp, htpst, hset1, hclk1⟩ := detect_eff hs1
+          obtain ⟨ts1, hts1, _, hpos, hclk2, hbr⟩ := actionDone_eff hs2
+          have hi1 := inv_step h.inv hs1
+          have hS1 := sinv_step h.inv h.sinv hs1
+          have hi2 := inv_step hi1 hs2
+          have hS2 := sinv_step hi1 hS1 hs2
+          have hci0 := h.ci c0 comp hcomp
+          have hcs0 := h.cself c0 comp hcomp
+          have hnd := nodup_members h.nodup hcomp
+          have hsdis : comp.self ∉ allMembers cs.comps := h.sdisj comp (List.mem_of_getElem? hcomp)
+          have hnself : comp.self ∉ comp.members := fun hm => hsdis (mem_allMembers hcomp hm)
+          have hms : m ≠ comp.self := fun e => hnself (e ▸ hmmem)
+          -- the descriptor of the compound object is untouched by the detection of m
+          obtain ⟨ts, hts, a0, ae, ass, ap, a1, a2, a3, a4⟩ := hcs0.ex
+          have hts1' : ts1 = ts := by
+            rw [hset1, get_set_tp _ _ _ _ _ htp, if_neg (fun e => hms e.symm), hts] at hts1; cases hts1; rfl
+          subst hts1'
+          have hts1s : s1.tps[comp.self]? = some ts1 := hts1
+          obtain ⟨kk, hkl, hkget⟩ := List.getElem_of_mem hmmem
+          have hk : comp.members[kk]? = some m := by rw [List.getElem?_eq_getElem hkl, hkget]
+          obtain ⟨hkc, hpend, hlt⟩ := added_pos hci0 hk htp htpst
+          have hcnt := hi1.taskCnt comp.self ts1 hts1s
+          have hst0 : ts1.started = 0 ∧ ts1.ended = 0 := by omega
+          have hpp : (0 : Int) < comp.pending := by omega
+          obtain ⟨hadded, hready⟩ := a1 hpp
+          have hclk := h.sinv.clk
+          have hcomm : ∀ y : Tp, (cs.base.tps.set m { tp with st := .inCb, cbs := tp.cbs + 1, cbAt := cs.base.clock, by_ := t }).set comp.self y =
+              (cs.base.tps.set comp.self y).set m { tp with st := .inCb, cbs := tp.cbs + 1, cbAt := cs.base.clock, by_ := t } :=
+            fun y => List.set_comm _ _ hms
+          split at hs
+          · rename_i hp
+            -- some remain
+            split at hs
+            · rename_i nx hnx
+              cases hs3 : step? s2 (.addCall t nx) with
+              | none => rw [hs3] at hs; cases hs
+              | some s3 =>
+                rw [hs3] at hs; cases hs
+                obtain ⟨tn, htn, htnst, hset3⟩ := addCall_eff hs3
+                have hnxmem : nx ∈ comp.members := List.mem_of_getElem? hnx
+                have hnxs : nx ≠ comp.self := fun e => hnself (e ▸ hnxmem)
+                have hset2 : s2.tps = s1.tps.set comp.self { ts1 with pend := ts1.pend - 1 } := by
+                  rcases hbr with ⟨_, hp1, _, _, _⟩ | ⟨_, e⟩
+                  · omega
+                  · exact e
+                have hl3 : s3.tps = ((cs.base.tps.set comp.self { ts1 with pend := ts1.pend - 1 }).set m
+                    { tp with st := .inCb, cbs := tp.cbs + 1, cbAt := cs.base.clock, by_ := t }).set nx { tn with st := .adding, by_ := t } := by
+                  rw [hset3, hset2, hset1, hcomm]
+                refine ⟨inv_step hi2 hs3, sinv_step hi2 hS2 hs3,
+                        by show (allMembers (cs.comps.set c0 _)).Nodup; rw [allMembers_set hcomp]; exact h.nodup; rfl,
+                        by show (allSelfs (cs.comps.set c0 _)).Nodup; rw [allSelfs_set hcomp]; exact h.snodup; rfl, ?_, ?_, ?_⟩
+                · intro x hx
+                  show x.self ∉ allMembers (cs.comps.set c0 _)
+                  rw [allMembers_set hcomp]
+                  · rcases mem_set_comp hcomp hx with rfl | hx
+                    · exact hsdis
+                    · exact h.sdisj x hx
+                  · rfl
+                · intro i c hc
+                  show CI s3.tps c
+                  by_cases hic : c0 = i
+                  · subst hic
+                    rw [List.getElem?_set_self (List.getElem?_eq_some_iff.1 hcomp).1] at hc
+                    cases hc
+                    rw [hl3]
+                    have hci1 : CI (cs.base.tps.set comp.self { ts1 with pend := ts1.pend - 1 }) comp :=
+                      ci_set_frame hci0 hts rfl (Or.inl hnself)
+                    have hS0 : ∀ y ∈ cs.base.tps.set comp.self { ts1 with pend := ts1.pend - 1 }, tpOK cs.base.clock y := by
+                      intro y hy
+                      rcases List.mem_or_eq_of_mem_set hy with hy | hy
+                      · exact h.sinv.tpok y hy
+                      · subst hy
+                        have := h.sinv.tpok ts1 (List.mem_of_getElem? hts)
+                        simpa only [tpOK] using this
+                    have htp0 : (cs.base.tps.set comp.self { ts1 with pend := ts1.pend - 1 })[m]? = some tp := by
+                      rw [get_set_tp _ _ _ _ _ hts, if_neg hms]; exact htp
+                    refine ci_memberCb (x1 := { tp with st := .inCb, cbs := tp.cbs + 1, cbAt := cs.base.clock, by_ := t }) hci1 hnd hS0
+                      hmmem htp0 htpst ⟨rfl, rfl, rfl⟩ _ (Or.inr ⟨hp, nx, tn, { tn with st := .adding, by_ := t }, hnx, ?_, htnst, rfl, rfl, rfl, rfl, rfl⟩)
+                    rw [← hcomm, ← hset1, ← hset2]; exact htn
+                  · rw [List.getElem?_set_ne hic] at hc
+                    refine (other_frame (h.ci i c hc) (h.cself i c hc) ?_).1
+                    intro q hq
+                    have hq1 : q ≠ comp.self := by
+                      rcases hq with hq | hq
+                      · intro e; exact hsdis (e ▸ mem_allMembers hc hq)
+                      · rw [hq]; exact (self_ne_of_ne h.snodup hcomp hc hic).symm
+                    have hq2 : ∀ x ∈ comp.members, q ≠ x := by
+                      intro x hx
+                      rcases hq with hq | hq
+                      · intro e; exact members_disjoint h.nodup hcomp hc hic hx (e ▸ hq)
+                      · intro e; exact h.sdisj c (List.mem_of_getElem? hc) (hq ▸ e ▸ mem_allMembers hcomp hx)
+                    rw [hset3, get_set_tp _ _ _ _ _ htn, if_neg (hq2 nx hnxmem), hset2, get_set_tp _ _ _ _ _ hts1s, if_neg hq1,
+                        hset1, get_set_tp _ _ _ _ _ htp, if_neg (hq2 m hmmem)]
+                · intro i c hc
+                  show CS s3.tps c
+                  by_cases hic : c0 = i
+                  · subst hic
+                    rw [List.getElem?_set_self (List.getElem?_eq_some_iff.1 hcomp).1] at hc
+                    cases hc
+                    have hnxl : comp.completed + 1 < comp.members.length := (List.getElem?_eq_some_iff.1 hnx).1
+                    have hlook : s3.tps[comp.self]? = some { ts1 with pend := ts1.pend - 1 } := by
+                      rw [hset3, get_set_tp _ _ _ _ _ htn, if_neg (fun e => hnxs e.symm), hset2]
+                      exact List.getElem?_set_self (List.getElem?_eq_some_iff.1 hts1s).1
+                    refine ⟨hcs0.ne, _, hlook, a0, ae, ass, ?_, fun _ => ⟨hadded, hready⟩, ?_, ?_, ?_⟩
+                    · simp only []; omega
+                    · intro e; simp only [] at e; omega
+                    · intro _; exact a3 hlt
+                    · intro hcb; simp only [] at hcb; exact absurd (a3 hlt).1 hcb
+                  · rw [List.getElem?_set_ne hic] at hc
+                    refine (other_frame (h.ci i c hc) (h.cself i c hc) ?_).2
+                    intro q hq
+                    have hq1 : q ≠ comp.self := by
+                      rcases hq with hq | hq
+                      · intro e; exact hsdis (e ▸ mem_allMembers hc hq)
+                      · rw [hq]; exact (self_ne_of_ne h.snodup hcomp hc hic).symm
+                    have hq2 : ∀ x ∈ comp.members, q ≠ x := by
+                      intro x hx
+                      rcases hq with hq | hq
+                      · intro e; exact members_disjoint h.nodup hcomp hc hic hx (e ▸ hq)
+                      · intro e; exact h.sdisj c (List.mem_of_getElem? hc) (hq ▸ e ▸ mem_allMembers hcomp hx)
+                    rw [hset3, get_set_tp _ _ _ _ _ htn, if_neg (hq2 nx hnxmem), hset2, get_set_tp _ _ _ _ _ hts1s, if_neg hq1,
+                        hset1, get_set_tp _ _ _ _ _ htp, if_neg (hq2 m hmmem)]
+            · cases hs
+          · rename_i hp
+            -- the last member: the compound terminates, nested in this callback
+            cases hs
+            have hn : comp.completed + 1 = comp.members.length := by omega
+            have hp1 : ts1.pend = 1 := by omega
+            have hset2 : s2.tps = s1.tps.set comp.self { ts1 with pend := 0, st := .inCbN, cbs := ts1.cbs + 1, cbAt := s1.clock, by_ := t } := by
+              rcases hbr with ⟨_, _, _, _, e⟩ | ⟨hno, _⟩
+              · exact e
+              · exact absurd ⟨hready, hp1, by omega, by omega⟩ hno
+            have hl2 : s2.tps = (cs.base.tps.set comp.self { ts1 with pend := 0, st := .inCbN, cbs := ts1.cbs + 1, cbAt := s1.clock, by_ := t }).set m
+                { tp with st := .inCb, cbs := tp.cbs + 1, cbAt := cs.base.clock, by_ := t } := by
+              rw [hset2, hset1, hcomm]
+            refine ⟨hi2, hS2,
+                    by show (allMembers (cs.comps.set c0 _)).Nodup; rw [allMembers_set hcomp]; exact h.nodup; rfl,
+                    by show (allSelfs (cs.comps.set c0 _)).Nodup; rw [allSelfs_set hcomp]; exact h.snodup; rfl, ?_, ?_, ?_⟩
+            · intro x hx
+              show x.self ∉ allMembers (cs.comps.set c0 _)
+              rw [allMembers_set hcomp]
+              · rcases mem_set_comp hcomp hx with rfl | hx
+                · exact hsdis
+                · exact h.sdisj x hx
+              · rfl
+            · intro i c hc
+              show CI s2.tps c
+              by_cases hic : c0 = i
+              · subst hic
+                rw [List.getElem?_set_self (List.getElem?_eq_some_iff.1 hcomp).1] at hc
+                cases hc
+                rw [hl2]
+                have hci1 : CI (cs.base.tps.set comp.self { ts1 with pend := 0, st := .inCbN, cbs := ts1.cbs + 1, cbAt := s1.clock, by_ := t }) comp :=
+                  ci_set_frame hci0 hts rfl (Or.inl hnself)
+                have hlookF : s2.tps[comp.self]? = some { ts1 with pend := 0, st := .inCbN, cbs := ts1.cbs + 1, cbAt := s1.clock, by_ := t } := by
+                  rw [hset2]; exact List.getElem?_set_self (List.getElem?_eq_some_iff.1 hts1s).1
+                have hS0 : ∀ y ∈ cs.base.tps.set comp.self { ts1 with pend := 0, st := .inCbN, cbs := ts1.cbs + 1, cbAt := s1.clock, by_ := t },
+                    tpOK s2.clock y := by
+                  intro y hy
+                  rcases List.mem_or_eq_of_mem_set hy with hy | hy
+                  · exact tpOK_mono (h.sinv.tpok y hy) (by omega)
+                  · subst hy; exact hS2.tpok _ (List.mem_of_getElem? hlookF)
+                have htp0 : (cs.base.tps.set comp.self { ts1 with pend := 0, st := .inCbN, cbs := ts1.cbs + 1, cbAt := s1.clock, by_ := t })[m]? = some tp := by
+                  rw [get_set_tp _ _ _ _ _ hts, if_neg hms]; exact htp
+                exact ci_memberCb (x1 := { tp with st := .inCb, cbs := tp.cbs + 1, cbAt := cs.base.clock, by_ := t }) hci1 hnd hS0
+                  hmmem htp0 htpst ⟨rfl, rfl, rfl⟩ _ (Or.inl ⟨by omega, rfl⟩)
+              · rw [List.getElem?_set_ne hic] at hc
+                refine (other_frame (h.ci i c hc) (h.cself i c hc) ?_).1
+                intro q hq
+                have hq1 : q ≠ comp.self := by
+                  rcases hq with hq | hq
+                  · intro e; exact hsdis (e ▸ mem_allMembers hc hq)
+                  · rw [hq]; exact (self_ne_of_ne h.snodup hcomp hc hic).symm
+                have hq2 : ∀ x ∈ comp.members, q ≠ x := by
+                  intro x hx
+                  rcases hq with hq | hq
+                  · intro e; exact members_disjoint h.nodup hcomp hc hic hx (e ▸ hq)
+                  · intro e; exact h.sdisj c (List.mem_of_getElem? hc) (hq ▸ e ▸ mem_allMembers hcomp hx)
+                rw [hset2, get_set_tp _ _ _ _ _ hts1s, if_neg hq1, hset1, get_set_tp _ _ _ _ _ htp, if_neg (hq2 m hmmem)]
+            · intro i c hc
+              show CS s2.tps c
+              by_cases hic : c0 = i
+              · subst hic
+                rw [List.getElem?_set_self (List.getElem?_eq_some_iff.1 hcomp).1] at hc
+                cases hc
+                have hlookF : s2.tps[comp.self]? = some { ts1 with pend := 0, st := .inCbN, cbs := ts1.cbs + 1, cbAt := s1.clock, by_ := t } := by
+                  rw [hset2]; exact List.getElem?_set_self (List.getElem?_eq_some_iff.1 hts1s).1
+                refine ⟨hcs0.ne, _, hlookF, a0, ae, Or.inr (Or.inr (Or.inr (Or.inl rfl))), ?_, ?_, fun _ => Or.inl rfl, ?_, ?_⟩
+                · simp only []; omega
+                · intro e; simp only [] at e; omega
+                · intro e; simp only [] at e; omega
+                · intro _ ml tl hml htl
+                  simp only [] at hml
+                  have hidx : comp.members.length - 1 = kk := by omega
+                  rw [hidx, hk] at hml; cases hml
+                  rw [hset2, get_set_tp _ _ _ _ _ hts1s, if_neg hms, hset1,
+                      List.getElem?_set_self (List.getElem?_eq_some_iff.1 htp).1] at htl
+                  cases htl
+                  simp only []
+                  omega
+              · rw [List.getElem?_set_ne hic] at hc
+                refine (other_frame (h.ci i c hc) (h.cself i c hc) ?_).2
+                intro q hq
+                have hq1 : q ≠ comp.self := by
+                  rcases hq with hq | hq
+                  · intro e; exact hsdis (e ▸ mem_allMembers hc hq)
+                  · rw [hq]; exact (self_ne_of_ne h.snodup hcomp hc hic).symm
+                have hq2 : ∀ x ∈ comp.members, q ≠ x := by
+                  intro x hx
+                  rcases hq with hq | hq
+                  · intro e; exact members_disjoint h.nodup hcomp hc hic hx (e ▸ hq)
+                  · intro e; exact h.sdisj c (List.mem_of_getElem? hc) (hq ▸ e ▸ mem_allMembers hcomp hx)
+                rw [hset2, get_set_tp _ _ _ _ _ hts1s, if_neg hq1, hset1, get_set_tp _ _ _ _ _ htp, if_neg (hq2 m hmmem)]
+        · cases hs
+      · cases hs
     · cases hs
   · cases hs
 
@@ -53,83 +355,104 @@ theorem gi_cstep {cs cs' : CSt} {tr : CTr} (h : GI cs) (hs : cstep? cs tr = some
       split at hs
       · rename_i m0 hm0
         split at hs
-        · cases hst : step? cs.base (.startupAdd t m0) with
-          | none => rw [hst] at hs; cases hs
-          | some s' =>
-            rw [hst] at hs; cases hs
-            obtain ⟨tp, htp, htps, hset⟩ := startupAdd_eff hst
-            have hi' := inv_step h.inv hst
-            have hs' := sinv_step h.inv h.sinv hst
-            have h0 := head?_get0 hm0
-            have hm0mem : m0 ∈ comp.members := List.mem_of_getElem? h0
-            refine ⟨hi', hs', by show (allMembers (cs.comps.set c0 _)).Nodup; rw [allMembers_set hcomp]; exact h.nodup; rfl, ?_⟩
-            intro i c hc
-            show CI s'.tps c
-            by_cases hic : c0 = i
-            · subst hic
-              rw [List.getElem?_set_self (List.getElem?_eq_some_iff.1 hcomp).1] at hc
-              cases hc
-              rw [hset]
-              exact ci_startup (h.ci c0 comp hcomp) (nodup_members h.nodup hcomp) h0 htp htps ⟨rfl, rfl, rfl, rfl⟩
-            · rw [List.getElem?_set_ne hic] at hc
-              exact ci_set_frame (h.ci i c hc) htp hset (Or.inl (members_disjoint h.nodup hcomp hc hic hm0mem))
-        · cases hs
-      · cases hs
-    · cases hs
-  | memberCb t c0 m =>
-    simp only [cstep?] at hs
-    split at hs
-    · rename_i comp hcomp
-      split at hs
-      · rename_i hmem
-        have hmmem : m ∈ comp.members := by simpa using hmem
-        split at hs
-        · rename_i s1 hs1
-          obtain ⟨tp, htp, htpst, hset1⟩ := detect_eff hs1
-          have hi1 := inv_step h.inv hs1
-          have hS1 := sinv_step h.inv h.sinv hs1
-          have hci0 := h.ci c0 comp hcomp
-          have hnd := nodup_members h.nodup hcomp
+        · rename_i hsub
           split at hs
-          · rename_i hp
-            split at hs
-            · rename_i nx hnx
-              cases hs2 : step? s1 (.addCall t nx) with
-              | none => rw [hs2] at hs; cases hs
-              | some s2 =>
-                rw [hs2] at hs; cases hs
-                obtain ⟨tn, htn, htnst, hset2⟩ := addCall_eff hs2
-                have hnxmem : nx ∈ comp.members := List.mem_of_getElem? hnx
-                refine ⟨inv_step hi1 hs2, sinv_step hi1 hS1 hs2, by show (allMembers (cs.comps.set c0 _)).Nodup; rw [allMembers_set hcomp]; exact h.nodup; rfl, ?_⟩
-                intro i c hc
-                show CI s2.tps c
+          · rename_i s1 hs1
+            cases hst : step? s1 (.startupAdd t m0) with
+            | none => rw [hst] at hs; cases hs
+            | some s' =>
+              rw [hst] at hs; cases hs
+              obtain ⟨q, ts, hsu, hts, htsst, hset1, _⟩ := startupReady_eff hs1
+              have hq : q = comp.self := by rw [hsub] at hsu; cases hsu; rfl
+              subst hq
+              obtain ⟨tp, htp1, htps, hset⟩ := startupAdd_eff hst
+              have hi1 := inv_step h.inv hs1
+              have hS1 := sinv_step h.inv h.sinv hs1
+              have h0 := head?_get0 hm0
+              have hm0mem : m0 ∈ comp.members := List.mem_of_getElem? h0
+              have hsdis : comp.self ∉ allMembers cs.comps := h.sdisj comp (List.mem_of_getElem? hcomp)
+              have hsm0 : m0 ≠ comp.self := fun e => hsdis (e ▸ mem_allMembers hcomp hm0mem)
+              have htp : cs.base.tps[m0]? = some tp := by
+                rw [hset1, get_set_tp _ _ _ _ _ hts, if_neg hsm0] at htp1; exact htp1
+              have hci0 := h.ci c0 comp hcomp
+              have hcs0 := h.cself c0 comp hcomp
+              have hnself : comp.self ∉ comp.members := fun hm => hsdis (mem_allMembers hcomp hm)
+              refine ⟨inv_step hi1 hst, sinv_step hi1 hS1 hst,
+                      by show (allMembers (cs.comps.set c0 _)).Nodup; rw [allMembers_set hcomp]; exact h.nodup; rfl,
+                      by show (allSelfs (cs.comps.set c0 _)).Nodup; rw [allSelfs_set hcomp]; exact h.snodup; rfl, ?_, ?_, ?_⟩
+              · intro x hx
+                show x.self ∉ allMembers (cs.comps.set c0 _)
+                rw [allMembers_set hcomp]
+                · rcases mem_set_comp hcomp hx with rfl | hx
+                  · exact hsdis
+                  · exact h.sdisj x hx
+                · rfl
+              · intro i c hc
+                show CI s'.tps c
                 by_cases hic : c0 = i
                 · subst hic
                   rw [List.getElem?_set_self (List.getElem?_eq_some_iff.1 hcomp).1] at hc
                   cases hc
-                  refine ci_memberCb (x1 := { tp with st := .inCb, cbs := tp.cbs + 1, cbAt := cs.base.clock, by_ := t }) hci0 hnd h.sinv.tpok hmmem htp htpst ⟨rfl, rfl, rfl⟩ s2.tps (Or.inr ⟨hp, nx, tn, { tn with st := .adding, by_ := t }, hnx, ?_, htnst, rfl, rfl, rfl, rfl, ?_⟩)
-                  · rw [← hset1]; exact htn
-                  · rw [hset2, hset1]
+                  rw [hset, hset1]
+                  have hci1 : CI (cs.base.tps.set comp.self { ts with ready := true, pend := ts.pend + comp.members.length }) comp :=
+                    ci_set_frame hci0 hts rfl (Or.inl hnself)
+                  exact ci_startup hci1 (nodup_members h.nodup hcomp) h0 (by rw [← hset1]; exact htp1) htps ⟨rfl, rfl, rfl, rfl⟩
                 · rw [List.getElem?_set_ne hic] at hc
-                  have hci1 : CI s1.tps c :=
-                    ci_set_frame (h.ci i c hc) htp hset1 (Or.inl (members_disjoint h.nodup hcomp hc hic hmmem))
-                  exact ci_set_frame hci1 htn hset2 (Or.inl (members_disjoint h.nodup hcomp hc hic hnxmem))
-            · cases hs
-          · rename_i hp
-            cases hs
-            refine ⟨hi1, hS1, by show (allMembers (cs.comps.set c0 _)).Nodup; rw [allMembers_set hcomp]; exact h.nodup; rfl, ?_⟩
-            intro i c hc
-            show CI s1.tps c
-            by_cases hic : c0 = i
-            · subst hic
-              rw [List.getElem?_set_self (List.getElem?_eq_some_iff.1 hcomp).1] at hc
-              cases hc
-              exact ci_memberCb (x1 := { tp with st := .inCb, cbs := tp.cbs + 1, cbAt := cs.base.clock, by_ := t }) hci0 hnd h.sinv.tpok hmmem htp htpst ⟨rfl, rfl, rfl⟩ s1.tps (Or.inl ⟨by omega, hset1⟩)
-            · rw [List.getElem?_set_ne hic] at hc
-              exact ci_set_frame (h.ci i c hc) htp hset1 (Or.inl (members_disjoint h.nodup hcomp hc hic hmmem))
+                  refine (other_frame (h.ci i c hc) (h.cself i c hc) ?_).1
+                  intro q hq
+                  have hq1 : q ≠ comp.self := by
+                    rcases hq with hq | hq
+                    · intro e; exact hsdis (e ▸ mem_allMembers hc hq)
+                    · rw [hq]; exact (self_ne_of_ne h.snodup hcomp hc hic).symm
+                  have hq2 : q ≠ m0 := by
+                    rcases hq with hq | hq
+                    · intro e; exact members_disjoint h.nodup hcomp hc hic hm0mem (e ▸ hq)
+                    · intro e; exact h.sdisj c (List.mem_of_getElem? hc) (hq ▸ e ▸ mem_allMembers hcomp hm0mem)
+                  rw [hset, get_set_tp _ _ _ _ _ htp1, if_neg hq2, hset1, get_set_tp _ _ _ _ _ hts, if_neg hq1]
+              · intro i c hc
+                show CS s'.tps c
+                by_cases hic : c0 = i
+                · subst hic
+                  rw [List.getElem?_set_self (List.getElem?_eq_some_iff.1 hcomp).1] at hc
+                  cases hc
+                  obtain ⟨ts0, hts0, a0, ae, ass, ap, a1, a2, a3, a4⟩ := hcs0.ex
+                  rw [hts] at hts0; cases hts0
+                  -- before the startup hook: completed = 0 and pending = 0
+                  obtain ⟨y, hy, _, _, _, b4⟩ := hci0.mem 0 m0 h0
+                  rw [htp] at hy; cases hy
+                  have hc0 : comp.completed = 0 := by
+                    rcases Nat.eq_zero_or_pos comp.completed with e | e
+                    · exact e
+                    · obtain ⟨w, hw, _, b2, _, _⟩ := hci0.mem 0 m0 h0
+                      rw [htp] at hw; cases hw
+                      rcases b2 e with e' | e' <;> rw [htps] at e' <;> cases e'
+                  have hp0 : comp.pending = 0 := ((b4 hc0.symm).2.1 htps).2
+                  have hlook : s'.tps[comp.self]? = some { ts with ready := true, pend := ts.pend + comp.members.length } := by
+                    rw [hset, get_set_tp _ _ _ _ _ htp1, if_neg (fun e => hsm0 e.symm), hset1]
+                    exact List.getElem?_set_self (List.getElem?_eq_some_iff.1 hts).1
+                  refine ⟨hcs0.ne, _, hlook, a0, ae, Or.inr (Or.inr (Or.inl htsst)), ?_, fun _ => ⟨htsst, rfl⟩, ?_, ?_, ?_⟩
+                  · simp only []; rw [hp0] at ap; push_cast; omega
+                  · intro e; simp only [] at e; have := hcs0.ne; omega
+                  · intro _; exact a3 (by have := hcs0.ne; omega)
+                  · intro hcb; simp only [] at hcb
+                    exact absurd (a3 (by have := hcs0.ne; omega)).1 hcb
+                · rw [List.getElem?_set_ne hic] at hc
+                  refine (other_frame (h.ci i c hc) (h.cself i c hc) ?_).2
+                  intro q hq
+                  have hq1 : q ≠ comp.self := by
+                    rcases hq with hq | hq
+                    · intro e; exact hsdis (e ▸ mem_allMembers hc hq)
+                    · rw [hq]; exact (self_ne_of_ne h.snodup hcomp hc hic).symm
+                  have hq2 : q ≠ m0 := by
+                    rcases hq with hq | hq
+                    · intro e; exact members_disjoint h.nodup hcomp hc hic hm0mem (e ▸ hq)
+                    · intro e; exact h.sdisj c (List.mem_of_getElem? hc) (hq ▸ e ▸ mem_allMembers hcomp hm0mem)
+                  rw [hset, get_set_tp _ _ _ _ _ htp1, if_neg hq2, hset1, get_set_tp _ _ _ _ _ hts, if_neg hq1]
+          · cases hs
         · cases hs
       · cases hs
     · cases hs
+  | memberCb t c0 m => exact gi_memberCb h hs
 
 theorem gi_cstep' {cs : CSt} (tr : CTr) (h : GI cs) : GI (cstep cs tr) := by
   unfold cstep
@@ -138,24 +461,29 @@ theorem gi_cstep' {cs : CSt} (tr : CTr) (h : GI cs) : GI (cstep cs tr) := by
   | some cs' => exact gi_cstep h hs
 
 theorem gi_init (k : Nat) (tps : List Tp) (comps : List Comp) (hwf : WF tps comps) : GI (cinit k tps comps) := by
-  obtain ⟨hnd, hc, hf⟩ := hwf
-  refine ⟨inv_init k tps hf, sinv_init k tps hf, hnd, ?_⟩
-  intro i c hci
-  obtain ⟨h1, h2, h3, _, _, h6⟩ := hc c (List.mem_of_getElem? hci)
-  have hfresh : ∀ (m : Nat) (tp : Tp), tps[m]? = some tp → tp.st = .notAdded ∧ tp.addAt = 0 := by
-    intro m tp htp
-    have := hf tp (List.mem_of_getElem? htp)
-    exact ⟨this.1, this.2.2.2.2.1⟩
-  refine ⟨by omega, ?_, ?_, ?_⟩
-  · intro j m hm
-    obtain ⟨tp, htp, he, _⟩ := h6 m (List.mem_of_getElem? hm)
-    refine ⟨tp, htp, he, ?_, fun _ => (hfresh m tp htp).1, ?_⟩
-    · intro hlt; omega
-    · intro _
-      exact ⟨Or.inl (hfresh m tp htp).1, fun _ => ⟨h1, h2⟩, fun hne => absurd (hfresh m tp htp).1 hne⟩
-  · intro e; exact h2
-  · intro j m m' tp tp' _ _ _ htp' hne
-    exact absurd (hfresh m' tp' htp').2 hne
+  obtain ⟨hnd, hsnd, hc, hf⟩ := hwf
+  have hfresh : ∀ (m : Nat) (tp : Tp), tps[m]? = some tp → tp.fresh := fun m tp htp => hf tp (List.mem_of_getElem? htp)
+  refine ⟨inv_init k tps hf, sinv_init k tps hf, hnd, hsnd, fun c hcm => (hc c hcm).2.2.2.1, ?_, ?_⟩
+  · intro i c hci
+    obtain ⟨h1, h2, h3, _, _, h6⟩ := hc c (List.mem_of_getElem? hci)
+    refine ⟨by omega, ?_, ?_, ?_⟩
+    · intro j m hm
+      obtain ⟨tp, htp, he, _⟩ := h6 m (List.mem_of_getElem? hm)
+      have hfr := hfresh m tp htp
+      refine ⟨tp, htp, he, ?_, fun _ => hfr.1, ?_⟩
+      · intro hlt; omega
+      · intro _
+        exact ⟨Or.inl hfr.1, fun _ => ⟨h1, h2⟩, fun hne => absurd hfr.1 hne⟩
+    · intro e; exact h2
+    · intro j m m' tp tp' _ _ _ htp' hne
+      exact absurd (hfresh m' tp' htp').2.2.2.2.1 hne
+  · intro i c hci
+    obtain ⟨h1, h2, h3, _, ⟨ts, hts, hte, ht0⟩, _⟩ := hc c (List.mem_of_getElem? hci)
+    obtain ⟨f1, f2, f3, f4, f5, f6, f7, f8, f9, f10, f11, f12⟩ := hfresh c.self ts hts
+    refine ⟨h3, ts, hts, ht0, hte, Or.inl f1, by rw [f12, h2]; rfl, ?_, ?_, fun _ => ⟨f8, f4⟩, ?_⟩
+    · intro hp; rw [h2] at hp; exact absurd hp (by decide)
+    · intro e; omega
+    · intro hcb; exact absurd f8 hcb
 
 theorem gi_run (k : Nat) (tps : List Tp) (comps : List Comp) (hwf : WF tps comps) (trs : List CTr) :
     GI (crun k tps comps trs) := by
